@@ -15,10 +15,11 @@ CONSTANTS
   AfterHeight = 100
   LockNames = {"a", "b"}
   ConnectChoices <- RealConnect
+  SwapChoices <- RealSwap
   ReorgChoices <- RealReorg
   MaxTip = 700
   MaxSteps = 12
 INIT InitObs
 NEXT Stutter
-INVARIANTS ObsKeepsRecentX ObsKeepsLockedX ObsKeepsBuffer ObsAutoPost ObsKeepsRecent ObsKeepsLocked
+INVARIANTS ObsFileInfoCovers ObsKeepsRecentX ObsKeepsLockedX ObsKeepsBuffer ObsAutoPost ObsKeepsRecent ObsKeepsLocked
 CHECK_DEADLOCK FALSE
